@@ -162,7 +162,9 @@ impl<B: IoBufMut> Framer<B> for LengthDelimited {
             u64::from_le_bytes(len_bytes)
         } as usize;
 
-        if buf.len() < self.length_field_len + len {
+        // A hostile 8-byte length can be close to `u64::MAX`: such a frame can never be
+        // complete, so saturate instead of overflowing.
+        if buf.len() < self.length_field_len.saturating_add(len) {
             return Ok(None);
         }
 
